@@ -146,6 +146,55 @@ func c08Variant(p *c08Packet, kind string) []byte {
 	}
 }
 
+// c08Sealed returns the 96 bytes a first packet carries for the server: 32-byte ephemeral key, 64 bytes sealed.
+func c08Sealed(first []byte, ws bool) []byte {
+	if ws {
+		s := string(first)
+		i := strings.Index(strings.ToLower(s), "\r\nhidden: ")
+		if i < 0 {
+			return nil
+		}
+		j := strings.Index(s[i+2:], "\r\n")
+		raw, err := base64.StdEncoding.DecodeString(strings.TrimSpace(s[i+10 : i+2+j]))
+		if err != nil || len(raw) != 96 {
+			return nil
+		}
+		return raw
+	}
+	recs, _ := vk.SplitTLSRecords(first)
+	if len(recs) != 1 {
+		return nil
+	}
+	ch, err := vk.ParseClientHelloHandshake(recs[0].Body)
+	if err != nil || len(ch.Random) != 32 || len(ch.SessionID) != 32 || len(ch.KeyShares[29]) != 32 {
+		return nil
+	}
+	return append(append(append([]byte(nil), ch.Random...), ch.SessionID...), ch.KeyShares[29]...)
+}
+
+// c08Rewrap puts p's 96 bytes into tmpl, a genuine first packet of the other transport.
+func c08Rewrap(p *c08Packet, tmpl []byte) []byte {
+	mine := c08Sealed(p.first, p.ws)
+	theirs := c08Sealed(tmpl, !p.ws)
+	if mine == nil || theirs == nil {
+		return nil
+	}
+	out := append([]byte(nil), tmpl...)
+	if !p.ws {
+		// into a WebSocket upgrade: replace the hidden header's value
+		return bytes.Replace(out, []byte(base64.StdEncoding.EncodeToString(theirs)), []byte(base64.StdEncoding.EncodeToString(mine)), 1)
+	}
+	// into a ClientHello: random, session id, key share
+	for k := 0; k < 3; k++ {
+		i := bytes.Index(out, theirs[32*k:32*k+32])
+		if i < 0 {
+			return nil
+		}
+		copy(out[i:], mine[32*k:32*k+32])
+	}
+	return out
+}
+
 func c08Run(t *testing.T) func(sc c08Scenario) (vk.Result, error) {
 	return func(sc c08Scenario) (vk.Result, error) {
 		var res vk.Result
@@ -179,7 +228,7 @@ func c08Inner(sc c08Scenario) (vk.Result, error) {
 		}
 		return time.Now()
 	}
-	sta := &State{StaticPv: &pv, UsedRandom: map[[32]byte]int64{}, WorldState: common.WorldState{Rand: rand.Reader, Now: now}}
+	sta := vState(&State{StaticPv: &pv, UsedRandom: map[[32]byte]int64{}, WorldState: common.WorldState{Rand: rand.Reader, Now: now}})
 	go sta.UsedRandomCleaner()
 	t0 := time.Now()
 	defer func() {
@@ -210,8 +259,13 @@ func c08Inner(sc c08Scenario) (vk.Result, error) {
 		return ts.After(n.Add(-180*time.Second)) && ts.Before(n.Add(180*time.Second))
 	}
 	var lastAccept = map[int]time.Time{}
+	var presentVia Transport // when set: the next presentation goes through this transport instead of the packet's own
 	present := func(p *c08Packet, idx int, data []byte, what string) error {
-		_, _, err := AuthFirstPacket(data, p.transport, sta)
+		tr := p.transport
+		if presentVia != nil {
+			tr, presentVia = presentVia, nil
+		}
+		_, _, err := AuthFirstPacket(data, tr, sta)
 		if err == nil {
 			if p.accepted > 0 {
 				after := ""
@@ -265,6 +319,19 @@ func c08Inner(sc c08Scenario) (vk.Result, error) {
 			idx := op.I % len(pkts)
 			p := pkts[idx]
 			v := c08Variant(p, op.Kind)
+			if op.Kind == "rewrap" {
+				// the sealed identity block lifted out of the packet and presented in a first packet of the OTHER transport
+				// (ClientHello random / session id / key share <-> the WebSocket upgrade's hidden header): no key needed
+				tmpl, ttr, err := c08Capture(pub, !p.ws, "firefox", 0)
+				if err != nil {
+					return res, fmt.Errorf("harness: %v", err)
+				}
+				v = c08Rewrap(p, tmpl)
+				if v == nil {
+					return res, fmt.Errorf("harness: cannot re-wrap the sealed block")
+				}
+				presentVia = ttr
+			}
 			if inWindow(p) {
 				res.NonTrivial = true
 				res.Labels = append(res.Labels, "altered-copy-in-window:"+op.Kind)
@@ -411,7 +478,7 @@ func c08Gen(rt *rapid.T) c08Scenario {
 		case k < 40:
 			sc.Ops = append(sc.Ops, c08Op{K: "again", I: rapid.IntRange(0, 20).Draw(rt, "i")})
 		case k < 60:
-			sc.Ops = append(sc.Ops, c08Op{K: "variant", I: rapid.IntRange(0, 20).Draw(rt, "i"), Kind: rapid.SampledFrom([]string{"bit255", "bit255", "ciphersuite", "sni"}).Draw(rt, "vk")})
+			sc.Ops = append(sc.Ops, c08Op{K: "variant", I: rapid.IntRange(0, 20).Draw(rt, "i"), Kind: rapid.SampledFrom([]string{"bit255", "bit255", "ciphersuite", "sni", "rewrap", "rewrap"}).Draw(rt, "vk")})
 		case k == 68:
 			sc.Ops = append(sc.Ops, c08Op{K: "flood", N: rapid.SampledFrom([]int{50, 3000, 40000, 70000, 140000, 300000}).Draw(rt, "flood")})
 		case k < 68:
@@ -461,7 +528,7 @@ func TestVerif_C08_Concurrent(t *testing.T) {
 		if berr != nil || cerr != nil {
 			return res, fmt.Errorf("harness: capture: %v %v", berr, cerr)
 		}
-		sta := &State{StaticPv: &pv, UsedRandom: map[[32]byte]int64{}, WorldState: common.WorldState{Rand: rand.Reader, Now: func() time.Time { return base }}}
+		sta := vState(&State{StaticPv: &pv, UsedRandom: map[[32]byte]int64{}, WorldState: common.WorldState{Rand: rand.Reader, Now: func() time.Time { return base }}})
 		for i, p := range pkts {
 			var wg sync.WaitGroup
 			var ok int32
@@ -509,7 +576,7 @@ func TestVerif_C08_TestAndSet(t *testing.T) {
 		if berr != nil || cerr != nil {
 			return res, fmt.Errorf("harness: capture: %v %v", berr, cerr)
 		}
-		sta := &State{StaticPv: &pv, UsedRandom: map[[32]byte]int64{}, WorldState: common.WorldState{Rand: rand.Reader, Now: func() time.Time { return base }}}
+		sta := vState(&State{StaticPv: &pv, UsedRandom: map[[32]byte]int64{}, WorldState: common.WorldState{Rand: rand.Reader, Now: func() time.Time { return base }}})
 		h := vArm("registerRandom.betweenTestAndSet")
 		defer h.Release()
 		var ok int32
